@@ -239,6 +239,10 @@ func runC17(p *Prog, r *Report) {
 		}
 	}
 	for _, bj := range e.BadJoins {
+		if strings.Contains(bj[1], "raise the WaitGroup counter themselves") {
+			r.Bad("C17.R2", "goroutine family "+bj[0]+" is joined before its starter goes on", "-", bj[1]+": what follows the Wait (the per-channel processing of the same buffers, the next block) then runs concurrently with these goroutines, with no ordering between their accesses")
+			continue
+		}
 		r.Bad("C17.R2", "goroutine family "+bj[0]+" is collected before its starter's caller goes on", "-", bj[1]+": a goroutine that is still starting or sampling then runs concurrently with what follows (closing the devices, the next start), with no ordering between their accesses")
 	}
 	c17R3(p, r)
@@ -1059,8 +1063,8 @@ func c17IndexShares(r *Role) bool {
 			if !ok || uses {
 				return
 			}
-			if dependsOn(ia.Index, q) {
-				uses = true
+			if stripConv(ia.Index) != ssa.Value(q) && dependsOn(ia.Index, q) {
+				uses = true // computed from the argument (the argument itself as index: see partitionTypes)
 			}
 		})
 		if uses {
